@@ -10,11 +10,12 @@ def main():
     modname, fn = sys.argv[1], sys.argv[2]
     mod = importlib.import_module(modname)
     check = getattr(mod, fn)
-    from vf.core import Violation, exc_violation, repo_frame
+    from vf.core import Violation, exc_violation, repo_frame, sk_config
     out = []
     for case in json.load(sys.stdin):
         try:
-            check(case)
+            with sk_config(case):
+                check(case)
             out.append(dict(ok=True))
         except Violation as v:
             out.append(dict(ok=False, sig=v.sig, msg=v.msg[:400]))
